@@ -52,10 +52,45 @@ def http (inp : Json) : R Res := do
         else if doAclCheck method path (kind == "admin") a then "served" else "403"
   return { m := Json.str r, nt := decide (!skipped path ∧ kind ≠ "admin") }
 
+def parseAcl1 (j : Json) : R (List Ac) := do
+  (← j.getArr?).toList.mapM fun j => do
+    return { resource := ← getStr j "r", action := ← getStr j "a", deny := ← getBool j "d" }
+
+def insertSortedBy (lt : α → α → Bool) (x : α) : List α → List α
+  | [] => [x]
+  | y :: ys => if lt x y then x :: y :: ys else y :: insertSortedBy lt x ys
+def sortBy (lt : α → α → Bool) (l : List α) : List α := l.foldl (fun acc x => insertSortedBy lt x acc) []
+
+def acJson (a : Ac) : Json := Json.mkObj [("r", Json.str a.resource), ("a", Json.str a.action), ("d", Json.bool a.deny)]
+
+def persistK (inp : Json) : R Res := do
+  let ops ← getArr inp "ops"
+  let mut s : Sec := {}
+  let mut res : Array Json := #[]
+  let mut restarts := 0
+  for o in ops do
+    let a ← o.getArr?
+    let kind ← asStr a[0]!
+    let op ← match kind with
+      | "register" => pure (SecOp.register (← asStr a[1]!))
+      | "unregister" => pure (SecOp.unregister (← asStr a[1]!))
+      | "setacl" => pure (SecOp.setAcl (← asStr a[1]!) (← parseAcl1 a[2]!))
+      | "delacl" => pure (SecOp.delAcl (← asStr a[1]!))
+      | "restart" => pure SecOp.restart
+      | _ => throw s!"bad op {kind}"
+    if kind == "restart" then restarts := restarts + 1
+    s := s.step op
+    let cl := sortBy (fun (a b : String) => a < b) s.mem.clients
+    let ac := sortBy (fun (a b : String × List Ac) => a.1 < b.1) s.mem.acls
+    res := res.push (Json.mkObj [("clients", jStrs cl),
+      ("acls", jList (fun (p : String × List Ac) => Json.arr #[Json.str p.1, jList acJson p.2]) ac)])
+  return { m := Json.arr res, nt := decide (restarts ≥ 1 ∧ s.mem.acls.length + s.mem.clients.length ≥ 1) }
+
 def handle (k : String) (inp : Json) : Option (R Res) :=
   match k with
   | "c16.acl" => some (acl inp)
   | "c16.http" => some (http inp)
+  | "c16.persist" => some (persistK inp)
   | _ => none
 
 end Hub.Drv.C16
